@@ -105,3 +105,14 @@ pub proof fn lemma_roofing_alpha_core(c: real, s: real, q: real)
     assert(q > 0real) by(nonlinear_arith) requires q * c == c + s - 1real, c + s > 1real, c > 0real;
     assert(q < 2real) by(nonlinear_arith) requires q * c == c + s - 1real, s < 1real, c > 0real;
 }
+
+pub proof fn lemma_mul_comm(a: real, b: real) ensures a * b == b * a
+{ assert(a * b == b * a) by(nonlinear_arith); }
+pub proof fn lemma_affine_mix(a: real, b: real, x: real, e: real, w: real)
+    ensures (a * x + b) * w + (a * e + b) * (1real - w) == a * (x * w + e * (1real - w)) + b
+{
+    assert((a * x + b) * w == a * (x * w) + b * w) by(nonlinear_arith);
+    assert((a * e + b) * (1real - w) == a * (e * (1real - w)) + b * (1real - w)) by(nonlinear_arith);
+    assert(b * w + b * (1real - w) == b) by(nonlinear_arith);
+    assert(a * (x * w + e * (1real - w)) == a * (x * w) + a * (e * (1real - w))) by(nonlinear_arith);
+}
